@@ -23,6 +23,9 @@ type layoutItem struct {
 	Width  int    // bytes
 	Endian string // "be", "le", "" for single bytes
 	In     ssa.Instruction
+	// Bind: for an item found in a helper the function calls, the helper's parameters bound to
+	// the arguments of that call (nil for an item of the function itself)
+	Bind map[*ssa.Parameter]ssa.Value
 }
 
 func (l layoutItem) String() string {
@@ -187,6 +190,50 @@ func writerLayout(fn *ssa.Function) []layoutItem {
 			out = append(out, layoutItem{Field: valueToken(x.Val), Buf: buf, Base: b, Off: k + soff, Width: 1, In: in})
 		}
 	})
+	return out
+}
+
+// writerLayoutDeep adds to writerLayout(fn) the writes that same-package helpers called from fn
+// make into a byte-slice parameter, re-based on the buffer fn passes (one level): a header
+// writer factored out of fn is still fn's layout. Field names that are helper parameters are
+// renamed to what fn passes for them.
+func writerLayoutDeep(fn *ssa.Function) []layoutItem {
+	out := writerLayout(fn)
+	for _, ci := range model.AllCalls(fn) {
+		call, ok := ci.(*ssa.Call)
+		if !ok {
+			continue
+		}
+		ce := call.Call.StaticCallee()
+		if ce == nil || ce.Blocks == nil || ce.Pkg != fn.Pkg || ce == fn || len(ce.Params) != len(call.Call.Args) {
+			continue
+		}
+		bind := map[*ssa.Parameter]ssa.Value{}
+		for k, a := range call.Call.Args {
+			bind[ce.Params[k]] = a
+		}
+		for _, it := range writerLayout(ce) {
+			prm, isP := it.Buf.(*ssa.Parameter)
+			if !isP {
+				continue
+			}
+			abuf, abase, aoff := sliceStart(bind[prm])
+			if it.Base != nil && abase != nil {
+				continue // two symbolic bases: not a fixed position
+			}
+			n := it
+			n.Buf, n.Off, n.Bind = abuf, it.Off+aoff, bind
+			if abase != nil {
+				n.Base = abase
+			}
+			for q, a := range bind {
+				if q.Name() == it.Field {
+					n.Field = valueToken(a)
+				}
+			}
+			out = append(out, n)
+		}
+	}
 	return out
 }
 
